@@ -186,7 +186,7 @@ def sampled_basic_views(shape, rng, tier):
     """The whole basic view domain of a shape; for the larger 3-d shapes of the quick tier a seeded
     sample of the full-length tuples (all shorter tuples, bare items, None, Ellipsis are kept)."""
     vs = list(basic_views(shape))
-    limit = 320 if tier == "quick" else 3000
+    limit = 280 if tier == "quick" else 3000
     if len(shape) == 3 and len(vs) > limit + 400:
         short = [v for v in vs if v in ("N", "E") or len(v[1]) < 3]
         long_ = [v for v in vs if v not in ("N", "E") and len(v[1]) == 3]
@@ -1074,7 +1074,7 @@ class MaskViews(Base):
                 for v in grid:
                     for n in names:
                         yield [list(sh), key, n, v]
-                per = max(4, len(names) // (4 if tier == "quick" else 2))
+                per = max(4, len(names) // (5 if tier == "quick" else 2))
                 for i, v in enumerate(other):
                     for n in round_robin(names, per, salt + i):
                         yield [list(sh), key, n, v]
@@ -1257,13 +1257,44 @@ IDX_STATES = ["range", "range_pix", "ineq_pix", "category", "roi_pix_a", "roi_pi
               "roi_pre", "catmulti", "catroi2d_x"]
 
 
+IDX_CROSS = ["xroi1d_0", "xroi2d_0", "xroi2d_1", "froi2d_0", "xroi_pre", "xslice_a", "xslice_c", "fslice_c", "xmask", "fmask",
+             "xrange_pix0", "xand", "xmor", "xpixelstate", "xroi3d"]
+
+
+def split_name(name):
+    """`state@x:…` = a selection on the ids of a pixel-linked dataset in the cross environment `x:…`"""
+    if "@" in name:
+        n, key = name.split("@", 1)
+        return n, key
+    return name, "none"
+
+
 class IdxMask(IndexedBase):
     """`IndexedData.get_mask(state, view)` for every index tuple, before and after a change of indices."""
     name = "idxmask"
     budget_share = 1.6
 
+    def _cross(self, tier, rng):
+        """the parent's selections are defined on the ids of a second / third dataset pixel-linked in every order"""
+        for sh in ([[2, 3], [2, 3, 4]] if tier == "quick" else [[2, 3], [3, 3], [2, 3, 4], [2, 2, 3], [3, 1, 2]]):
+            for ei, key in enumerate(cross_variants(len(sh), tier)):
+                avail = cross_state_names(env_for(sh, key))
+                names = [n for n in IDX_CROSS if n in avail]
+                for xi, ix in enumerate(index_tuples(sh)):
+                    rsh = reduced_shape(sh, ix)
+                    ix1 = changed_indices(ix, sh, rng)
+                    vs = self._views(rsh, rng, tier)
+                    if tier == "quick" and len(vs) > 5:
+                        vs = vs[:2] + [vs[i] for i in sorted(rng.sample(range(2, len(vs)), 3))]
+                    for i, v in enumerate(vs):
+                        for n in round_robin(names, 2 if tier == "quick" else 4, i + xi * 3 + ei):
+                            yield [list(sh), ix, ix1, n + "@" + key, v]
+
     def cases(self, tier, rng):
         m = 3 if tier == "quick" else 4
+        yield from self._cross("quick", rng)
+        if tier != "quick":
+            yield from self._cross(tier, rng)
         for sh in shapes_upto(3, m):
             nd = len(sh)
             names = [n for n in IDX_STATES if n in applicable_states(nd, "none")]
@@ -1277,7 +1308,8 @@ class IdxMask(IndexedBase):
 
     def run_impl(self, case):
         sh, ix0, ix1, name, view = case
-        env = env_for(sh, "none")
+        name, key = split_name(name)
+        env = env_for(sh, key)
         st, desc = build_state(env, name)
         idd = IndexedData(env.d, tuple(ix0))
         self._keep = (idd, st)
@@ -1298,7 +1330,8 @@ class IdxMask(IndexedBase):
         sh, ix0, ix1, name, view = case
         desc = getattr(self, "_desc", None)
         if desc is None:
-            env = env_for(sh, "none")
+            name, key = split_name(name)
+            env = env_for(sh, key)
             desc = resolve_desc(env, build_state(env, name)[1])
         self._desc = None
         return sx(["idxmask", [sh, ix0, ix1, desc, view_sx(view)], pyout])
@@ -1307,7 +1340,7 @@ class IdxMask(IndexedBase):
         return any(i is not None for i in case[1])
 
     def signature(self, case, po, res):
-        return {"state": case[3].rstrip("0123456789").rstrip("_"), "view": view_kind(case[4])}
+        return {"state": split_name(case[3])[0].rstrip("0123456789").rstrip("_"), "view": view_kind(case[4])}
 
     def shrink(self, case):
         sh, ix0, ix1, name, view = case
